@@ -282,7 +282,9 @@ impl OutDir {
         report: &mut Report,
     ) {
         let n = cases.len();
-        let shards = shards.max(1).min(n.max(1));
+        // never more than MAX_PER_FILE cases in one file: coqc's parser overflows its stack on very long list literals
+        const MAX_PER_FILE: usize = 3000;
+        let shards = shards.max(1).max((n + MAX_PER_FILE - 1) / MAX_PER_FILE).min(n.max(1));
         let per = (n + shards - 1) / shards.max(1);
         for s in 0..shards {
             let lo = s * per;
